@@ -133,7 +133,8 @@ def oracle(case):
                     want = Lprev
                 else:
                     want = last2 if last1 / last2 < pol["kappa"] else last1
-                    if abs(last1 / last2 - pol["kappa"]) <= 1e-9:
+                    d = last1 / last2 - pol["kappa"]
+                    if d != 0 and abs(d) <= 1e-9:  # within rounding of the threshold (an exact tie is decisive)
                         break
                 if not common.close(L, want, 8, TOL):
                     return {**where, "why": "adaptive BB: L does not follow the documented kappa rule on the latest usable ratios",
@@ -182,19 +183,6 @@ def oracle(case):
 
 # --------------------------------------------------------------------------
 # correspondence on one trajectory
-
-
-def _classify_known(kind, r, impl_L, model_L, pol):
-    """is this disagreement an instance of a listed finding of the unchanged tree?"""
-    if kind in ("bb", "abb") and r["ips"] is not None:
-        xx, xg, gg = r["ips"]
-        if xg == 0.0 and gg > 0 and math.isinf(impl_L) and not math.isinf(model_L):
-            return "bb-inf"
-    if kind in ("ls", "rls") and r["tests"]:
-        t = r["tests"][-1]
-        if len(r["tests"]) == pol["maxiter"] and not (t["fz"] <= t["fq"]) and _same(impl_L, t["L"] * pol["gu"]) and _same(model_L, t["L"]):
-            return "linesearch-untried"
-    return None
 
 
 def check_case(ctx, model, case, origin="gen"):
@@ -252,7 +240,7 @@ def check_case(ctx, model, case, origin="gen"):
                 if xg == 0:
                     ctx.count("exact:xg=0,gg>0" if gg > 0 else "exact:xg=0,gg=0")
                 if not _same(L, m):
-                    bad("stepsize.bb", i, {"L": L, "ips": r["ips"], "Lprev": Lprev}, {"L": m}, _classify_known(kind, r, L, m, pol))
+                    bad("stepsize.bb", i, {"L": L, "ips": r["ips"], "Lprev": Lprev}, {"L": m})
             else:
                 m1, m2 = r["mem"]
                 out = model.call("abb", kappa=f2b(pol["kappa"]), Lprev=f2b(Lprev), m1=_optb(m1), m2=_optb(m2),
@@ -263,11 +251,8 @@ def check_case(ctx, model, case, origin="gen"):
                 ctx.count("branch:abb-mem-" + ("".join("s" if v is not None else "n" for v in (m1, m2))))
                 memok = all((a is None and b is None) or (a is not None and b is not None and _same(a, b)) for a, b in zip(ia, mm))
                 if not _same(L, mL) or not memok:
-                    known = _classify_known(kind, r, L, mL, pol)
-                    if known is None and xg == 0.0 and gg > 0 and ia[1] is not None and math.isinf(ia[1]):
-                        known = "bb-inf"
                     bad("stepsize.abb", i, {"L": L, "mem_after": ia, "ips": r["ips"], "mem": r["mem"], "Lprev": Lprev},
-                        {"L": mL, "mem_after": mm}, known)
+                        {"L": mL, "mem_after": mm})
         else:
             start = Lprev if kind == "ls" else Lprev * pol["gd"]
             tests = [[f2b(t["fz"]), f2b(t["fq"])] for t in r["tests"]]
@@ -287,7 +272,7 @@ def check_case(ctx, model, case, origin="gen"):
                     ctx.count("exact:fz=fq")
             impl = {"L": L, "trials": len(r["tests"]), "tried": [t["L"] for t in r["tests"]]}
             if not _same(L, mL) or mtried != len(r["tests"]):
-                bad("stepsize.search", i, impl, {"L": mL, "trials": mtried}, _classify_known(kind, r, L, mL, pol))
+                bad("stepsize.search", i, impl, {"L": mL, "trials": mtried})
             else:
                 # the candidate handed back is the one computed with the returned L
                 if r["tests"]:
@@ -371,7 +356,7 @@ def correspond(ctx, model):
     for case in G.crafted_cases():
         ctx.count("crafted")
         check_case(ctx, model, case, origin="crafted")
-    n = ctx.n(70, 700)
+    n = ctx.n(220, 1500)
     for _ in range(n):
         p = G.gen_problem(ctx.rng)
         pol = G.gen_policy(ctx.rng)
@@ -379,22 +364,10 @@ def correspond(ctx, model):
         check_case(ctx, model, case)
 
 
-WITNESS = {"bb-inf": "bb_inf.json", "linesearch-untried": "linesearch_untried.json"}
-
-
 def findings(ctx, model):
-    """replay the witnesses of the listed findings on the real code (property oracle only)"""
-    common.setup_scico()
-    for fid, fname in WITNESS.items():
-        if not ctx.is_known(fid):
-            continue
-        p = common.CORPUS_DIR / PROP / fname
-        if not p.exists():
-            raise common.Infra(f"witness {p} of known finding {fid} missing")
-        case = json.loads(p.read_text())
-        case = case.get("case", case)
-        r = oracle(case)
-        ctx.known_finding(fid, r is not None, detail=(r or {}).get("why", ""))
+    """no listed finding of the current tree concerns C16 (the four defects found were repaired: see the
+    `fixed:` lines of known_findings.txt; their witnesses are regression cases in corpus/C16)"""
+    return None
 
 
 def search(ctx, model, why):
@@ -407,14 +380,6 @@ def search(ctx, model, why):
         ctx.count("search:oracle-runs")
         r = oracle(case)
         if r is not None:
-            known = None
-            if "never tried" in r["why"] or "not the one computed" in r["why"] or "not the candidate" in r["why"]:
-                known = "linesearch-untried"
-            if "not a finite positive" in r["why"] and r.get("inner_products") and r["inner_products"][1] == 0.0:
-                known = "bb-inf"
-            if known and ctx.is_known(known):
-                ctx.known_finding(known, True)
-                continue
             return {"case": _light(case), "failing": r}
     return None
 
